@@ -57,13 +57,14 @@ type gService struct {
 }
 
 type gFile struct {
-	name     string // root-relative slash path
-	prefix   string
-	includes []*gFile
-	incPaths []string
-	syms     []*gSym
-	services []*gService
-	body     []string // definitions in order
+	structOnly bool   // only struct-likes (and services): nothing in it keeps an include by itself
+	name       string // root-relative slash path
+	prefix     string
+	includes   []*gFile
+	incPaths   []string
+	syms       []*gSym
+	services   []*gService
+	body       []string // definitions in order
 }
 
 type gProgram struct {
@@ -134,6 +135,34 @@ func isTypeSym(s *gSym) bool {
 // genType: a random type for a field of file f. depth limits nesting.
 func (g *gen) genType(f *gFile, depth int, allowExc bool) *gType {
 	r := g.r
+	// definitions of a shared struct-only file are used from every file that includes it
+	if r.Chance(1, 3) {
+		var shared []string
+		for _, inc := range f.includes {
+			if !inc.structOnly {
+				continue
+			}
+			for _, s := range inc.syms {
+				if s.kind == "struct" || s.kind == "union" || (allowExc && s.kind == "exception") {
+					shared = append(shared, inc.prefix+"."+s.name)
+				}
+			}
+		}
+		if len(shared) > 0 {
+			t := &gType{name: rng.Pick(r, shared)}
+			switch r.Intn(4) {
+			case 0:
+				if depth > 0 {
+					return &gType{cont: "list", val: t}
+				}
+			case 1:
+				if depth > 0 {
+					return &gType{cont: "map", key: &gType{base: "string"}, val: t}
+				}
+			}
+			return t
+		}
+	}
 	named := g.visible(f, func(s *gSym) bool {
 		if !isTypeSym(s) {
 			return false
@@ -244,11 +273,16 @@ func (g *gen) newProgram(nfiles int) *gProgram {
 		base := n[strings.LastIndex(n, "/")+1:]
 		p.files = append(p.files, &gFile{name: n, prefix: strings.TrimSuffix(base, ".thrift")})
 	}
+	// often the last file is a shared "common" file with struct-likes only, included by most others
+	if nfiles >= 3 && r.Chance(1, 2) {
+		p.files[nfiles-1].structOnly = true
+		p.stats["shared_struct_only_file"]++
+	}
 	// include DAG: file i includes some files j > i; make the others reachable
 	for i := 0; i < nfiles; i++ {
 		f := p.files[i]
 		for j := i + 1; j < nfiles; j++ {
-			if r.Chance(1, 2) {
+			if r.Chance(1, 2) || (p.files[j].structOnly && r.Chance(2, 3)) {
 				f.includes = append(f.includes, p.files[j])
 			}
 		}
@@ -322,7 +356,10 @@ func (g *gen) genFile(f *gFile, isMain bool) {
 			nConst++
 		}
 	}
-	if size == 0 && !isMain {
+	if f.structOnly {
+		nStruct += nEnum + nTypedef + nConst + 1
+		nEnum, nTypedef, nConst = 0, 0, 0
+	} else if size == 0 && !isMain {
 		switch r.Intn(5) {
 		case 0:
 			nEnum = 1
